@@ -93,7 +93,7 @@ class Configuration:
         if self.seed is not None and not multiprocessing:  # (0 is a seed like any other)
             np.random.seed(self.seed)
             np.random.default_rng(self.seed)
-            random.seed(self.seed)
+            random.seed(int(self.seed))  # (a numpy integer is a seed too: `random` only takes built-in types)
         else:
             not_deterministic_seed = (os.getpid() * int(time.time())) % 123456789
             np.random.seed(not_deterministic_seed)
